@@ -5,7 +5,7 @@ import BeffVerif.Lemmas.Sort
 
 `Props/C05.lean` proves the decision exact on type vectors without object / list part. This file carries it one level up:
 an object type whose declared properties are inhabited scalar types (no index signature), on the left of `extends`,
-against an object type without index signature on the right. For every context in which the two atoms are defined and the
+against an object type on the right, with or without a (string) index signature. For every context in which the two atoms are defined and the
 memo holds no answer for this very question yet, and every fuel ≥ 5, `is_subtype` answers, and says *yes* exactly when every exact value of the left type —
 a value for every declared key within its type, nothing else — is a value of the right type under the structural reading
 (undeclared keys are free). That is reading S8 of the reference, now a theorem on this fragment instead of a sampled
@@ -16,7 +16,8 @@ The proof follows the engine step by step: the difference of two atoms is one di
 `check_mapping_empty` walks the union of the keys and asks, per key, whether `A[k] \ B[k]` is empty (`keys_fold`, using
 the scalar theorem), the index-signature dimension contributes nothing (`check_one`), the memo and the DNF plumbing are
 transparent (`mapping_single`, `isEmpty_objVec`). The statement is false for unions of object types on the left (D25) and
-for index signatures on the right of a union (D84): both are outside the hypotheses (one atom each side, no index).
+for a UNION of index-signature types on the right (D84): both are outside the hypotheses (one atom on each side; one index
+signature on the right is fine).
 -/
 namespace BeffVerif.C05Flat
 open BeffVerif Sem C05 Bdd
@@ -140,11 +141,14 @@ theorem good_valueExact (P : MappingAtomic) (hP : ∀ p ∈ P.vs, Good p.2) (hi 
   | none => simp only [hi]; exact good_optionalProp
   | some t => obtain ⟨p, hp, e⟩ := vsGet_mem hg; exact e ▸ hP p hp
 
-theorem wf_valueOpen (B : MappingAtomic) (hB : ∀ q ∈ B.vs, WF q.2) (hi : B.index = none) (k : String) :
+theorem wf_valueOpen (B : MappingAtomic) (hB : ∀ q ∈ B.vs, WF q.2) (hi : ∀ w, B.index = some w → WF w) (k : String) :
     WF (valueOpen B k) := by
   unfold valueOpen
   cases hg : vsGet B.vs k with
-  | none => simp only [hi]; exact wf_unknown
+  | none =>
+    cases hx : B.index with
+    | none => exact wf_unknown
+    | some w => exact hi w hx
   | some t => obtain ⟨p, hp, e⟩ := vsGet_mem hg; exact e ▸ hB p hp
 
 theorem mem_vsPut {vs : List (String × SemType)} {k : String} {d : SemType} {p : String × SemType}
@@ -165,7 +169,7 @@ def Covered (P B : MappingAtomic) (k : String) : Prop :=
 
 theorem keys_fold (n : Nat) (P B : MappingAtomic) (c : Ctx)
     (hP : ∀ p ∈ P.vs, Good p.2 ∧ Inh p.2) (hPi : P.index = none)
-    (hB : ∀ q ∈ B.vs, WF q.2) (hBi : B.index = none) (keys : List String) (ok : Bool) :
+    (hB : ∀ q ∈ B.vs, WF q.2) (hBi : ∀ w, B.index = some w → WF w) (keys : List String) (ok : Bool) :
     ∃ r, keys.foldlM (fun (ok : Bool) (k : String) =>
         if !ok then (pure false : SM Bool) else do
           let d ← SM.lift (diff (valueExact P k) (valueOpen B k))
@@ -244,14 +248,35 @@ theorem hasScalar_makeOptional_unknown (v : Scalar) : hasScalar (makeOptional un
 
 theorem wf_makeOptional (t : SemType) (h : WF t) : WF (makeOptional t) := h
 
+theorem absent_of_optionalProp (v : Scalar) (h : hasScalar optionalProp v = true) : v = .absent := by
+  cases v <;> simp [hasScalar, optionalProp, never, subBoolHas, subLitHas] at h ⊢
+
 def keysOf (P B : MappingAtomic) : List String :=
   JsVal.sortStrings (dedup (P.vs.map (·.1) ++ B.vs.map (·.1)))
+
+/-- the index-signature dimension of a closed positive atom: "no further key" against "further keys, if any, in `w`" —
+nothing is left over -/
+theorem index_dim_empty (n : Nat) (w : SemType) (hw : WF w) (c : Ctx) :
+    ∃ d, Sem.diff optionalProp (makeOptional w) = some d ∧ isEmpty (n + 2) d c = some (true, c) := by
+  obtain ⟨d, hd, hdg, hdv⟩ := diff_good optionalProp (makeOptional w) good_optionalProp (wf_makeOptional _ hw)
+  obtain ⟨e, he, heiff⟩ := isEmpty_good (n + 1) d c hdg
+  have : e = true := by
+    cases e
+    · obtain ⟨v, hv⟩ := heiff.1 rfl
+      rw [hdv] at hv
+      simp only [Bool.and_eq_true, Bool.not_eq_true'] at hv
+      have hab : v = .absent := absent_of_optionalProp v hv.1
+      subst hab
+      simp [hasScalar, makeOptional] at hv
+    · rfl
+  subst this
+  exact ⟨d, hd, he⟩
 
 /-- `check_mapping_empty` on one positive and one negative flat atom: total, leaves the context alone, and says "empty"
 exactly when every key in sight is covered -/
 theorem check_one (n : Nat) (P B : MappingAtomic) (c : Ctx)
     (hP : ∀ p ∈ P.vs, Good p.2 ∧ Inh p.2) (hPi : P.index = none)
-    (hB : ∀ q ∈ B.vs, WF q.2) (hBi : B.index = none) :
+    (hB : ∀ q ∈ B.vs, WF q.2) (hBi : ∀ w, B.index = some w → WF w) :
     ∃ r, checkMappingEmpty (n + 3) P [B] c = some (r, c) ∧ (r = true ↔ ∀ k ∈ keysOf P B, Covered P B k) := by
   obtain ⟨r, hr, hiff⟩ := keys_fold n P B c hP hPi hB hBi (keysOf P B) true
   refine ⟨r, ?_, by simpa using hiff⟩
@@ -263,19 +288,20 @@ theorem check_one (n : Nat) (P B : MappingAtomic) (c : Ctx)
   cases r with
   | false => rfl
   | true =>
-    simp only [Bool.not_true, Bool.false_eq_true, if_false, hPi, hBi]
-    obtain ⟨d, hd, hdg, hdv⟩ := diff_good optionalProp (makeOptional unknown) good_optionalProp (wf_makeOptional _ wf_unknown)
-    obtain ⟨e, he, heiff⟩ := isEmpty_good (n + 1) d c hdg
-    have : e = true := by
-      cases e
-      · obtain ⟨v, hv⟩ := heiff.1 rfl
-        rw [hdv, hasScalar_makeOptional_unknown] at hv
-        simp at hv
-      · rfl
-    subst this
-    rw [sm_bind_of _ _ c c d (by rw [hd]; rfl)]
-    rw [sm_bind_of _ _ c c true he]
-    rfl
+    simp only [Bool.not_true, Bool.false_eq_true, if_false, hPi]
+    cases hx : B.index with
+    | none =>
+      simp only
+      obtain ⟨d, hd, he⟩ := index_dim_empty n unknown wf_unknown c
+      rw [sm_bind_of _ _ c c d (by rw [hd]; rfl)]
+      rw [sm_bind_of _ _ c c true he]
+      rfl
+    | some w =>
+      simp only
+      obtain ⟨d, hd, he⟩ := index_dim_empty n w (hBi w hx) c
+      rw [sm_bind_of _ _ c c d (by rw [hd]; rfl)]
+      rw [sm_bind_of _ _ c c true he]
+      rfl
 
 theorem subInter_all {α : Type} (f : α → α → Option (Sem.Sub α)) (x : Sem.Sub α) : subInter f .all x = some x := by
   cases x <;> rfl
@@ -487,8 +513,8 @@ theorem inh_valueExact (P : MappingAtomic) (hP : ∀ p ∈ P.vs, Inh p.2) (hi : 
   | none => simp only [hi]; exact ⟨.absent, by simp [hasScalar, optionalProp]⟩
   | some t => obtain ⟨p, hp, e⟩ := vsGet_mem hg; exact e ▸ hP p hp
 
-theorem covered_iff (P B : MappingAtomic) (hP : ∀ p ∈ P.vs, Inh p.2) (hPi : P.index = none) (hBi : B.index = none)
-    (keys : List String) (hkeys : ∀ k, k ∈ B.vs.map (·.1) → k ∈ keys) :
+theorem covered_iff (P B : MappingAtomic) (hP : ∀ p ∈ P.vs, Inh p.2) (hPi : P.index = none)
+    (keys : List String) (hkeys : ∀ k, k ∈ B.vs.map (·.1) → k ∈ keys) (hkeysP : ∀ k, k ∈ P.vs.map (·.1) → k ∈ keys) :
     (∀ k ∈ keys, Covered P B k) ↔ ∀ o, memExact P o → memOpen B o := by
   constructor
   · intro h o ho k
@@ -500,8 +526,21 @@ theorem covered_iff (P B : MappingAtomic) (hP : ∀ p ∈ P.vs, Inh p.2) (hPi : 
         | some t =>
           exfalso; apply hk; apply hkeys
           exact (vsGet_isSome_iff B.vs k).1 (by rw [hg]; rfl)
-      simp only [valueOpen, this, hBi]
-      exact hasScalar_unknown _
+      simp only [valueOpen, this]
+      cases hx : B.index with
+      | none => exact hasScalar_unknown _
+      | some w =>
+        -- an undeclared key of an exact value is absent, and absence is allowed under an index signature
+        have hpn : vsGet P.vs k = none := by
+          cases hg : vsGet P.vs k with
+          | none => rfl
+          | some t =>
+            exfalso; apply hk; apply hkeysP
+            exact (vsGet_isSome_iff P.vs k).1 (by rw [hg]; rfl)
+        have hok := ho k
+        simp only [valueExact, hpn, hPi] at hok
+        rw [absent_of_optionalProp _ hok]
+        simp [hasScalar, makeOptional]
   · intro h k _ v hv
     let o : ObjVal := fun k' => if k' = k then v else Classical.choose (inh_valueExact P hP hPi k')
     have ho : memExact P o := by
@@ -513,14 +552,14 @@ theorem covered_iff (P B : MappingAtomic) (hP : ∀ p ∈ P.vs, Inh p.2) (hPi : 
     simpa [o] using this
 
 -- ---------- the theorem ----------
-/-- **Flat object types: assignability = inclusion.** `A`, `B` object types without index signature, the declared properties
-of `A` inhabited scalar types, those of `B` well-formed; `i ≠ j` their atoms in a context whose memo has no entry for the
+/-- **Flat object types: assignability = inclusion.** `A` an object type without index signature whose declared properties are
+inhabited scalar types, `B` an object type with well-formed property types and possibly a (well-formed) index signature; `i ≠ j` their atoms in a context whose memo has no entry for the
 clause `A ∧ ¬B` yet (an empty memo in particular). For every fuel
 ≥ 5 `is_subtype` answers, and the answer is *yes* exactly when every exact value of `A` is a structural value of `B`. -/
 theorem flat_object_subtype_iff_inclusion (n i j : Nat) (A B : MappingAtomic) (c : Ctx)
     (hij : i ≠ j) (hAi : c.mappings[i]? = some (some A)) (hBj : c.mappings[j]? = some (some B))
     (hA : ∀ p ∈ A.vs, Good p.2 ∧ Inh p.2) (hAx : A.index = none)
-    (hB : ∀ q ∈ B.vs, WF q.2) (hBx : B.index = none)
+    (hB : ∀ q ∈ B.vs, WF q.2) (hBx : ∀ w, B.index = some w → WF w)
     (hmemo : c.memoM.find? (fun p => p.1 == [⟨[⟨mappingKind, i⟩], [⟨mappingKind, j⟩]⟩]) = none) :
     ∃ r c', isSubtype (n + 5) (mappingFromIdx i) (mappingFromIdx j) c = some (r, c') ∧
       (r = true ↔ ∀ o, memExact A o → memOpen B o) := by
@@ -582,8 +621,9 @@ theorem flat_object_subtype_iff_inclusion (n i j : Nat) (A B : MappingAtomic) (c
     rw [sm_bind_of _ _ c c (objVec D) (by rw [hdiff]; rfl)]
     exact isEmpty_objVec (n + 4) D c c' r hme
   · rw [hiff]
-    rw [covered_iff A' B (fun p hp => (hA' p hp).2) rfl hBx (keysOf A' B) (fun k hk => by
-      simp only [keysOf, mem_sortStrings, mem_dedup, List.mem_append]; exact Or.inr hk)]
+    rw [covered_iff A' B (fun p hp => (hA' p hp).2) rfl (keysOf A' B) (fun k hk => by
+      simp only [keysOf, mem_sortStrings, mem_dedup, List.mem_append]; exact Or.inr hk) (fun k hk => by
+      simp only [keysOf, mem_sortStrings, mem_dedup, List.mem_append]; exact Or.inl hk)]
     constructor
     · intro h o ho; exact h o fun k => by rw [hexact]; exact ho k
     · intro h o ho; exact h o fun k => by rw [← hexact]; exact ho k
@@ -608,5 +648,13 @@ example : (∀ p ∈ exA.vs, Good p.2 ∧ Inh p.2) ∧ exA.index = none ∧ (∀
   · intro q hq
     simp only [exB, List.mem_cons, List.mem_nil_iff, or_false] at hq
     subst hq; simp [WF, WFLit, never]
+
+/-- with an index signature on the right: `{ a: string } extends { [k: string]: string }` — yes;
+`{ a: string; b: number } extends { [k: string]: string }` — no -/
+def exIx : MappingAtomic := ⟨[], some { never with str := .all }⟩
+example : ((isSubtype 5 (mappingFromIdx 1) (mappingFromIdx 2) { mappings := [some exA, some exB, some exIx] }).map (·.1)) = some true := by
+  decide +kernel
+example : ((isSubtype 5 (mappingFromIdx 0) (mappingFromIdx 2) { mappings := [some exA, some exB, some exIx] }).map (·.1)) = some false := by
+  decide +kernel
 
 end BeffVerif.C05Flat
